@@ -7,7 +7,9 @@ import (
 )
 
 const (
-	DefaultHealthCheckerTimeout = 5 * time.Second
+	// Client-wide ceiling for one probe. Each probe is bounded by its endpoint's check_timeout
+	// (validated to at most 30s); a lower ceiling here would silently override that setting.
+	DefaultHealthCheckerTimeout = 30 * time.Second
 	SlowResponseThreshold       = 10 * time.Second
 
 	HealthyEndpointStatusRangeStart = 200
